@@ -25,6 +25,18 @@ _RENAMES = {}
 _NONSIMPLE = {}
 
 
+def _block_simple(msl_src):
+    """match arms `Variant => { ... }` of generate_intrinsic_function whose block only guards one plain
+    `invoke_simple("name", context)` (the guard rejects operand types, it does not change the call): variant -> name"""
+    out = {}
+    for m in re.finditer(r"^ {8}(\w+) => \{\n(.*?)^ {8}\}", msl_src, re.M | re.S):
+        body = m.group(2)
+        calls = re.findall(r"invoke_simple\(\"(\w+)\", context\)", body)
+        if len(calls) == 1 and "ast::Expression::" not in body and "generate_invoke_simple" not in body and "generate_expression" not in body:
+            out[m.group(1)] = calls[0]
+    return out
+
+
 def nonsimple_intrinsics(repo):
     """HLSL intrinsic names the Metal exporter does not lower to a plain call of a (possibly renamed) function: helper
     functions, operators, as_type<>, reordered arguments.  Their lowering is outside the rules of this oracle."""
@@ -35,7 +47,7 @@ def nonsimple_intrinsics(repo):
         h = open(os.path.join(repo, "hlsl/src/ast_generate.rs"), encoding="utf-8").read()
         m = open(os.path.join(repo, "msl/src/generator.rs"), encoding="utf-8").read()
         hn = dict(re.findall(r"\b(\w+) => Form::Invoke\(\"(\w+)\"\)", h))
-        simple = set(re.findall(r"\b(\w+) => invoke_simple\(", m))
+        simple = set(re.findall(r"\b(\w+) => invoke_simple\(", m)) | set(_block_simple(m))
         for variant, hname in hn.items():
             if variant not in simple:
                 out.add(hname)
@@ -55,6 +67,7 @@ def intrinsic_renames(repo):
         m = open(os.path.join(repo, "msl/src/generator.rs"), encoding="utf-8").read()
         hn = dict(re.findall(r"\b(\w+) => Form::Invoke\(\"(\w+)\"\)", h))
         mn = dict(re.findall(r"\b(\w+) => invoke_simple\(\"(\w+)\"", m))
+        mn.update(_block_simple(m))
         for variant, hname in hn.items():
             if variant in mn and mn[variant] != hname:
                 out.setdefault(hname, set()).add(mn[variant])
